@@ -28,10 +28,56 @@ def gen_fn(r, v, weights):
     return req, agent
 
 
+def epic_moves(ctx, r):
+    """tasks moved from epic to epic, the emptied epics pruned, the log compacted (compaction writes items in id order, so an assignment can come
+    to stand before the creation of the epic it names): every task keeps the epic it was last given, and that epic is live"""
+    import json
+    st = cmdrun.Store(ctx.ergo, ctx.go)
+    trace = []
+    def ex(argv, stdin=None):
+        rr = st.exec(argv, stdin)
+        trace.append({"argv": argv, "stdin": None if stdin is None else stdin.decode(), "exit": rr["exit"]})
+        return rr
+    try:
+        want = {}
+        for i in range(5 + r.n(4)):
+            e1 = json.loads(ex(["--json", "new", "epic"], b'{"title":"from"}')["stdout"])["id"]
+            t = json.loads(ex(["--json", "new", "task"], json.dumps({"title": "t%d" % i, "epic": e1}).encode())["stdout"])["id"]
+            e2 = json.loads(ex(["--json", "new", "epic"], b'{"title":"to"}')["stdout"])["id"]
+            if r.p(80):
+                ex(["--json", "set", t], json.dumps({"epic": e2}).encode()); want[t] = e2
+            else:
+                ex(["--json", "set", t], b'{"epic":""}'); want[t] = ""
+            if r.p(60):
+                ex(["--json", "--agent", "p", "prune", "--yes"])
+            if r.p(50):
+                ex(["--json", "compact"])
+            for final in (False, True):
+                if final:
+                    if i % 3 != 2:
+                        break
+                    ex(["--json", "--agent", "p", "prune", "--yes"]); ex(["--json", "compact"]); ex(["--json", "compact"])
+                g = st.graph()
+                if "err" in g:
+                    ctx.violation("C14 store unreadable", g["err"][:200], {"trace": trace}); return
+                ctx.count(1, key=("epic-moves", final))
+                bad = oracles.inv14(g["graph"])
+                if bad:
+                    ctx.violation("C14 %s via %s" % (bad[0][0], "compact" if trace[-1]["argv"][-1] == "compact" else trace[-1]["argv"][1]), "task %s has epic_id %s which is not a live epic" % (bad[0][1], bad[0][2]), {"trace": trace}); return
+                for tid, e in want.items():
+                    k = oracles.task_of(g["graph"], tid)
+                    if k and k["epic_id"] != e:
+                        ctx.violation("C14 a task's epic changed without a command changing it", "task %s was last assigned to %r, the store says %r (after %s)" % (tid, e, k["epic_id"], " ".join(trace[-1]["argv"])), {"trace": trace}); return
+    finally:
+        st.close()
+
+
 def run(ctx):
     r = gen.Rng(ctx.seed * 1000003 + 14)
     for h in range(25 if ctx.quick else 400):
         run_history(ctx, r.fork(), 35, WEIGHTS, oracle, gen_fn=gen_fn)
+    for i in range(3 if ctx.quick else 60):
+        epic_moves(ctx, r.fork())
     # the reference is checked in one lock section and the epic pruned in another process: every schedule of prune ∥ (new|set under an
     # empty epic) and of (new|set under an epic) ∥ prune on the real binary, A parked before / inside / after its lock section
     framework.check_facts(ctx, ctx.facts, ["lock_sites", "writer_calls", "with_lock", "sections"])
